@@ -123,7 +123,7 @@ def check(rec, case):
         return
     try:
         b = theirs(src)
-    except (pytok.TokenError, SyntaxError, IndentationError, ValueError, RecursionError):
+    except (pytok.TokenError, SyntaxError, IndentationError, ValueError, RecursionError, SystemError):
         rec.case(case, False, labels=(f"stream:{stream}", "cpython-tokenize-rejects"))
         return
     if b == "fstring":
